@@ -663,7 +663,7 @@ Proof.
   induction ps as [|p ps IH]; simpl; intros st st' H E.
   - inversion E; subst; auto.
   - destruct (parse_step rx st p) as [st1|e] eqn:Es; [|discriminate].
-    eapply IH; [|exact E]. eapply parse_step_VS; eauto.
+    eapply IH; [|exact E]. simpl. eapply parse_step_VS; eauto.
 Qed.
 
 Lemma parse_sheet_VS rx env ps rs e : parse_sheet rx env ps = inl (rs, e) -> VS rs.
@@ -854,12 +854,11 @@ Definition rejected (o : op) (res : result) : bool :=
   match res with Exc _ => true | Ret None => is_ins o | _ => false end.
 (* operations that end in _cleanNamespaces, which may raise after the list was changed *)
 Definition ends_in_clean (o : op) : bool :=
-  match o with Ins _ _ _ | NsSet _ _ | SetText _ => true | _ => false end.
+  match o with SetText _ => true | _ => false end.
 
 Lemma insert_rule_rej rx simple clean rs r index io rs' res :
   insert_rule rx simple clean rs r index io = (rs', res) ->
-  (res = Ret None \/ exists e, res = Exc e /\ (e <> NoModificationAllowedErr \/ kind_beq (rkind r) NAMESPACE_RULE = false)) ->
-  rs' = rs.
+  (res = Ret None \/ exists e, res = Exc e) -> rs' = rs.
 Proof.
   unfold insert_rule. fold (norm_index (length rs) index).
   destruct (norm_index (length rs) index) as [idx|]; [|intros E; inversion E; auto].
@@ -869,14 +868,11 @@ Proof.
     + destruct (match dict_get _ (rprefix r) with Some u => N.eqb u (ruri r) | None => false end).
       * intros E; inversion E; auto.
       * destruct clean.
-        -- destruct (clean_namespaces (insert_at i r rs)) as [rs'' [e|]] eqn:Ec; intros E; inversion E; subst.
-           ++ intros [H|(e0 & H & [H2|H2])]; try discriminate. inversion H; subst.
-              exfalso. apply H2. unfold clean_namespaces in Ec.
-              eapply (clean_loop_exn _ _ []). rewrite Ec. reflexivity.
-           ++ intros [H|(e0 & H & _)]; discriminate.
-        -- intros E; inversion E; subst. intros [H|(e0 & H & _)]; discriminate.
-    + intros E; inversion E; subst. intros [H|(e0 & H & _)]; discriminate.
-  - intros E; inversion E; subst. intros [H|(e0 & H & _)]; discriminate.
+        -- destruct (clean_namespaces (insert_at i r rs)) as [rs'' [e|]] eqn:Ec; intros E; inversion E; subst; auto.
+           intros [H|(e0 & H)]; discriminate.
+        -- intros E; inversion E; subst. intros [H|(e0 & H)]; discriminate.
+    + intros E; inversion E; subst. intros [H|(e0 & H)]; discriminate.
+  - intros E; inversion E; subst. intros [H|(e0 & H)]; discriminate.
 Qed.
 
 Lemma parse_sheet_exn rx env ps rs e : parse_sheet rx env ps = inl (rs, Some e) -> e = NoModificationAllowedErr.
@@ -917,13 +913,8 @@ Theorem rejected_unchanged_main rx rs o rs' res :
   step rx rs o = (rs', res) -> rejected o res = true ->
   (ends_in_clean o = true -> res <> Exc NoModificationAllowedErr) -> rs' = rs.
 Proof.
-  assert (Hrej : forall res0, (res0 = Ret None \/ exists e, res0 = Exc e) -> res0 <> Exc NoModificationAllowedErr ->
-                 forall r, res0 = Ret None \/ exists e, res0 = Exc e /\
-                   (e <> NoModificationAllowedErr \/ kind_beq (rkind r) NAMESPACE_RULE = false)).
-  { intros res0 [H|[e H]] Hn r; [now left|right]. exists e. split; auto. left. congruence. }
   destruct o as [src index io|index|i|p u|p|e|ps|k c]; simpl; intros E Hr Hn.
-  - specialize (Hn eq_refl).
-    assert (Hres : res = Ret None \/ exists e, res = Exc e).
+  - assert (Hres : res = Ret None \/ exists e, res = Exc e).
     { destruct res as [[v|]|e| |]; try discriminate; eauto. }
     revert E. unfold insert_any.
     destruct (match index with None => true | Some i => negb ((i <? 0)%Z || (Z.of_nat (length rs) <? i)%Z) end);
@@ -941,12 +932,12 @@ Proof.
   - destruct res as [[v|]|e| |]; try discriminate. eapply delete_rule_exc; eauto.
   - destruct res as [[v|]|e| |]; try discriminate.
     destruct (Nat.ltb i (length rs)); [eapply delete_rule_exc; eauto | inversion E; auto].
-  - specialize (Hn eq_refl). destruct res as [[v|]|e| |]; try discriminate.
+  - destruct res as [[v|]|e| |]; try discriminate.
     revert E. unfold ns_set. destruct (find_ns rs p).
     + destruct (dict_get (ns_view rs) p); [destruct (N.eqb (ruri r) u)|]; intros E; inversion E; auto.
     + destruct (insert_rule rx None true rs (mkRule NAMESPACE_RULE p u 0 [] []) None true) as [rs1 res1] eqn:Ei.
       destruct res1 as [v|x| |]; intros E; inversion E; subst.
-      eapply insert_rule_rej; [exact Ei|]. right. exists e. split; auto. left. congruence.
+      eapply insert_rule_rej; [exact Ei|]. right. eauto.
   - destruct res as [[v|]|e| |]; try discriminate.
     revert E. unfold ns_del.
     destruct (last_index_of (fun r => is_kind NAMESPACE_RULE r && N.eqb (rprefix r) p) rs 0 None).
@@ -960,7 +951,7 @@ Proof.
     + destruct (N.eqb e 0); [intros E; inversion E|].
       destruct (insert_rule rx None true rs (mkRule CHARSET_RULE 0 0 e [] []) (Some 0%Z) false) as [rs1 res1] eqn:Ei.
       destruct res1 as [v|y| |]; intros E; inversion E; subst.
-      eapply insert_rule_rej; [exact Ei|]. right. exists x. split; auto.
+      eapply insert_rule_rej; [exact Ei|]. right. eauto.
   - specialize (Hn eq_refl). destruct res as [[v|]|x| |]; try discriminate.
     revert E. unfold set_text. destruct (parse_sheet rx [] ps) as [[rs1 [e|]]|e] eqn:Ep; intros E; inversion E; subst; auto.
     exfalso. apply Hn. f_equal. eapply parse_sheet_exn; eauto.
@@ -972,17 +963,14 @@ Proof.
     + destruct res as [[v|]|x| |]; auto.
 Qed.
 
-(* the excluded family is real: _cleanNamespaces raises after the new rule is in the list *)
+(* the former refutation witness (C07-namespace-clean-raises, repaired by a5cb308): the call is still rejected, and
+   now leaves the list unchanged *)
 Definition refute_sheet : list rule :=
   [mkRule NAMESPACE_RULE 1 1 0 [] []; mkRule NAMESPACE_RULE 2 2 0 [] []; mkRule STYLE_RULE 0 0 0 [2%N] []].
 Definition refute_op : op := Ins (Obj (mkRule NAMESPACE_RULE 1 2 0 [] [])) None true.
 
-Theorem rejected_unchanged_refuted_main :
-  exists rx rs o, valid_sheet rs = true /\ op_ok o /\
-    rejected o (snd (step rx rs o)) = true /\ fst (step rx rs o) <> rs.
-Proof.
-  exists true, refute_sheet, refute_op. repeat split; try reflexivity. vm_compute. discriminate.
-Qed.
+Lemma clean_raise_restores : step true refute_sheet refute_op = (refute_sheet, Exc NoModificationAllowedErr).
+Proof. vm_compute. reflexivity. Qed.
 
 (* ------------------------------------------------------------------ the parser accepts every valid kind list unchanged *)
 Lemma valid_app_l a b : valid_kinds (a ++ b) = true -> valid_kinds a = true.
